@@ -34,7 +34,7 @@ func Run(w Which) *core.Result {
 	res.Configs = append(res.Configs, "syntax (configuration independent)")
 	res.Rules = append(res.Rules,
 		"TWIN.bounds: the bounds/!bounds twin files ('must be kept in sync') have identical bodies once guard statements are set aside, and the guards on each access path (exported wrapper + unexported accessor) agree",
-		"TWIN.sync: reuseAsNonZeroed and reuseAsZeroed differ only by use/useZeroed and the trailing Zero()",
+		"TWIN.sync: reuseAsNonZeroed and reuseAsZeroed differ only by use/useZeroed and the zeroing statements (and a bare return in terminal position)",
 		"TWIN.sibling: in graph/iterator every type and its Weighted sibling have methods that are images of each other under the Weighted renaming",
 		"TWIN.sibguard: each iterator method and the corresponding method of its Weighted sibling leave (return/continue/break/panic) under the same single-statement guards up to the Weighted renaming",
 		"TWIN.sibstate: in graph/iterator every method and the corresponding method of the Weighted sibling type make the same assignments to the receiver's fields (cursor, length, current element) up to the Weighted renaming",
